@@ -21,24 +21,54 @@ SEEDS = {
  "C18a": dict(property="C18", needs="initializer configured + shutdown(wait=False) with work pending + a worker leaving by itself (idle timeout / memory leak): the re-spawned worker runs tasks without the initializer"),
  "C19a": dict(property="C19", needs="LOKY_MAX_DEPTH <= 0 (unlimited) + nested executor with the fork start method at depth >= 1: no LokyRecursionError"),
  "C20a": dict(property="C20", needs="broken executor: call queue never closed in the broken path, one feeder thread + 2 fds + 3 semaphores leak per broken lifecycle"),
+ "C13a": dict(property="C13", needs="the owning process dies between the tracker UNREGISTER and sem_unlink inside SemLock._cleanup (order swapped): nobody is left to unlink the name"),
+ "C01b": dict(property="C01", needs="a run of consecutive cancelled backlog futures longer than the number of events the manager still receives: `return` instead of `continue` stops the dispatch, a later live future is never sent"),
+ "C02b": dict(property="C02", needs="worker crash while an unresolved future has a done-callback that re-enters the executor (submit/shutdown): shutdown_lock is held while the futures are failed, self-deadlock of the manager"),
+ "C03b": dict(property="C03", needs="cancel() lands between the manager's cancelled() check and its set_running_or_notify_cancel(): cancel returns True but the task is dispatched; the result then kills the manager (InvalidStateError)"),
+ "C04b": dict(property="C04", needs="unpicklable task + a done-callback that re-enters the executor: the feeder thread runs the callback while holding shutdown_lock and deadlocks"),
+ "C05b": dict(property="C05", needs="more workers than free call-queue slots at shutdown (reusable executor, small cpu_count) and workers leaving during the cool-down: the cumulative sentinel count is compared with the shrinking number of live children"),
+ "C06b": dict(property="C06", needs="a descendant of the worker vanishes (exits and is reaped) between the psutil listing and its kill: the hoisted try/except stops killing the remaining descendants"),
+ "C07b": dict(property="C07", needs="a submit lands between the manager's reading of the pending/running counts and its pop of the timed-out worker (counts read before the pop): no re-spawn for the last worker"),
+ "C08b": dict(property="C08", needs="idle worker announces its exit while another is busy; a submit tops the pool up while the manager (lock dropped) does the same: max_workers+1 workers"),
+ "C09b": dict(property="C09", needs="idle timeouts of the workers land between the release of the management lock and the (now later) posting of the shrink sentinels: stale sentinels; NOT detected - the unmodified tree shows the same outcomes under the zero-timeout policy (Queue.put is asynchronous), see DESIGN 11.5b"),
+ "C10b": dict(property="C10", needs="a worker's clean departure still in progress (manager in p.join()) when _resize / _adjust_process_count count self._processes: the departing worker is counted as present"),
+ "C11b": dict(property="C11", needs="a leaked resource whose cleanup raises a non-OSError (name with an embedded NUL byte) followed by others in the end-of-life sweep: the sweep aborts"),
+ "C12b": dict(property="C12", needs="loky_init_main start method + a main module performing a tracked operation at import time: the child imports __main__ before the inherited tracker fd is installed and starts a private tracker"),
+ "C13b": dict(property="C13", needs="interpreter run with warnings as errors (-W error / PYTHONWARNINGS) + owner killed with live semaphores: the tracker's 'leaked' warning raises and the sweep never runs"),
+ "C14b": dict(property="C14", needs="Event.set()/clear() lands between the waiter's wake-up (or timeout) and its re-acquisition of the event lock: wait() returns the notification status instead of the flag"),
+ "C15b": dict(property="C15", needs="executor created with job_reducers and an explicitly empty result_reducers={}: the truthiness test falls back to the job reducers"),
+ "C16b": dict(property="C16", needs="wrapped class whose __call__ is inherited (base class or mixin): only the class' own __dict__ is inspected, fresh instances are not callable"),
+ "C17b": dict(property="C17", needs="physical-core probe yielding 0 without raising + a second cpu_count(only_physical_cores=True) call: 0 is cached before the validity check"),
+ "C18b": dict(property="C18", needs="two threads reaping the same child concurrently: the loser of the waitpid race gets ECHILD and records exit status 0"),
+ "C19b": dict(property="C19", needs="LOKY_MAX_DEPTH=0 (unlimited): the falsy-zero slip turns it into the default limit 10"),
+ "C20b": dict(property="C20", needs="kill-type lifecycle + worker with descendants one of which vanishes during the kill: kill_process_tree returns early, the worker is neither killed nor joined (child, fd, semaphore accumulate)"),
 }
 DETECTED = json.load(open(os.path.join(ROOT, "seeded", "detected.json"))) if os.path.exists(os.path.join(ROOT, "seeded", "detected.json")) else {}
 for name, meta in SEEDS.items():
     patch = f"/tmp/wt/{name}.patch.diff"
+    for alt in (f"/tmp/wt/{name}.rebased2.diff", f"/tmp/wt/{name}.rebased.diff"):
+        if os.path.exists(alt):
+            patch = alt          # rebased onto the current /repo HEAD
+            break
+    if name == "C01a":
+        patch = "/tmp/wt/C02a.rebased.diff"
     demo = f"/tmp/wt/{name}.demo.py"
     conf = f"/tmp/wt/{name}.confirm.log"
+    if not os.path.exists(conf) or "tests exit" not in open(conf).read():
+        if os.path.exists(f"/tmp/wt/{name}R.confirm.log"):
+            conf = f"/tmp/wt/{name}R.confirm.log"
     if not (os.path.exists(patch) and os.path.exists(demo)):
         continue
     d = os.path.join(ROOT, "seeded", name)
     os.makedirs(d, exist_ok=True)
-    if not os.path.exists(os.path.join(d, "patch.diff")) or "--force" in sys.argv:
-        shutil.copy(patch, os.path.join(d, "patch.diff"))
+    shutil.copy(patch, os.path.join(d, "patch.diff"))
+    m_note = "patch.diff applies to the /repo HEAD of the final commit of this session (rebased by hand where the surrounding code was changed by a fix: commit); original as written by the sub-agent: see confirm log"
     shutil.copy(demo, os.path.join(d, "demo.py"))
     ran = open(conf).read().strip().splitlines() if os.path.exists(conf) else ["(confirmation pending)"]
     m = dict(id=name, breaks_property=meta["property"], needs_to_manifest=meta["needs"],
              confirmed_by_me=ran,
              how_confirmed="tools/seed_confirm.sh: demo x2 on the clean worktree (exit 0), patch applied, demo x2 (exit != 0), full test-suite with the two always-failing tests deselected (-x, exit 0), patch reverted",
-             detected_by=DETECTED.get(name, []))
+             detected_by=DETECTED.get(name, []), note=m_note)
     if "same_patch_as" in meta:
         m["same_patch_as"] = meta["same_patch_as"]
     json.dump(m, open(os.path.join(d, "meta.json"), "w"), indent=1)
